@@ -28,6 +28,7 @@
 -/
 import SpectraVerif.Proofs.C15Lemmas
 import SpectraVerif.Proofs.C15Loop
+import SpectraVerif.Proofs.C15Reuse
 import SpectraVerif.Proofs.C15Gram
 import SpectraVerif.Proofs.C15Order
 import SpectraVerif.Proofs.C15Orth
@@ -36,6 +37,7 @@ import SpectraVerif.Proofs.C15Sizes
 import SpectraVerif.Proofs.C15Dpr
 import SpectraVerif.Gen.Guard
 import SpectraVerif.Gen.JDOrth
+import SpectraVerif.Gen.JDMembers
 import Mathlib.Data.Matrix.Mul
 import Mathlib.Tactic.NormNum
 
@@ -447,6 +449,234 @@ theorem c15_correction_defined (diag : Vec F) (θ : F) (r : Vec F) :
 
 end dprfix
 
+/-! ### ownership and reset footprint of the solver object (regenerated tables `Gen.JDMembers`) -/
+
+/-- every `break` of a flattened body is directly preceded, in the same block, by an assignment to `m_info` -/
+def breaksAfterInfo : List Gen.JDMembers.Stmt → Bool
+  | a :: b :: rest => (b.kind != "break" || (a.kind == "assign" && a.target == "m_info" && a.depth == b.depth)) && breaksAfterInfo (b :: rest)
+  | [b] => b.kind != "break"
+  | [] => true
+
+set_option maxRecDepth 8000 in
+open Gen.JDMembers in
+/-- **the object owns everything but the operator.**  Decided over `Gen.JDMembers.members` / `aliases` / `flow` (every data member and
+    type alias of `JDSymEigsBase`, `DavidsonSymEigsSolver`, `SearchSpace`, `RitzPairs` and the flattened bodies of `compute`,
+    `compute_with_guess`, the accessors and `initialize_search_space`, regenerated from the clang AST of the working tree on every run):
+    (1) these are ALL the data members, with these declared types: no cache of earlier results, no copy of a caller's argument other than
+        the ones below;
+    (2) the only member that is a reference, a pointer or a non-owning handle (`Eigen::Ref` / `Map`, `reference_wrapper`, smart pointer,
+        `std::function`) is `JDSymEigsBase::m_matrix_operator`; no member is `mutable`;
+    (3) the aliases the members are declared with (`Matrix`, `Vector`, `Array`, `BoolArray`) are owning `Eigen::Matrix` / `Eigen::Array` types;
+    (4) the caller's initial space reaches the object through `m_search_space.initialize_search_space(initial_space)` only, where it is
+        COPIED into the owning `m_basis_vectors`; `compute()` builds its own `Matrix intial_space`; `selection`, `maxit`, `tol` are
+        by-value parameters;
+    (5) the accessors return by value (`CompInfo`, `Index`, `Vector`, `Matrix`) and are `const`.
+    So destroying or overwriting the guess matrix, the rule, `maxit`, `tol` or the constructor's size arguments after the call cannot change
+    what the accessors return; only the operator object must outlive the solver. -/
+theorem c15_members_owning :
+    members.map (fun m => (m.cls, m.name, m.type)) =
+      [("JDSymEigsBase", "m_matrix_operator", "const OpType&"), ("JDSymEigsBase", "niter_", "Index"),
+       ("JDSymEigsBase", "m_number_eigenvalues", "const Index"), ("JDSymEigsBase", "m_max_search_space_size", "Index"),
+       ("JDSymEigsBase", "m_initial_search_space_size", "Index"), ("JDSymEigsBase", "m_correction_size", "Index"),
+       ("JDSymEigsBase", "m_ritz_pairs", "RitzPairs<Scalar>"), ("JDSymEigsBase", "m_search_space", "SearchSpace<Scalar>"),
+       ("JDSymEigsBase", "m_info", "CompInfo"), ("DavidsonSymEigsSolver", "m_diagonal", "Vector"),
+       ("SearchSpace", "m_basis_vectors", "Matrix"), ("SearchSpace", "m_op_basis_product", "Matrix"),
+       ("RitzPairs", "m_values", "Vector"), ("RitzPairs", "m_small_vectors", "Matrix"), ("RitzPairs", "m_vectors", "Matrix"),
+       ("RitzPairs", "m_residues", "Matrix"), ("RitzPairs", "m_root_converged", "BoolArray")] ∧
+    (members.filter (fun m => m.isRef || m.isPtr)).map (fun m => (m.cls, m.name)) = [("JDSymEigsBase", "m_matrix_operator")] ∧
+    (∀ m ∈ members, m.isMutable = false) ∧
+    (∀ a ∈ aliases, a.2.1 ∈ ["Matrix", "Vector", "Array", "BoolArray"] →
+      a.2.2 ∈ ["Eigen::Matrix<Scalar, Eigen::Dynamic, Eigen::Dynamic>", "Eigen::Matrix<Scalar, Eigen::Dynamic, 1>",
+               "Eigen::Array<Scalar, Eigen::Dynamic, 1>", "Eigen::Array<bool, Eigen::Dynamic, 1>"]) ∧
+    (flow.filter (fun r => r.fn = "JDSymEigsBase::compute")).map (fun r => (r.kind, r.target, r.text)) =
+      [("signature", "Index", "(Spectra::SortRule, Spectra::JDSymEigsBase::Index, Spectra::JDSymEigsBase::Scalar)"),
+       ("decl", "derived", "Derived& := static_cast<Derived&>(*this)"),
+       ("decl", "intial_space", "Matrix := derived.setup_initial_search_space(selection)"),
+       ("return", "", "compute_with_guess(intial_space, selection, maxit, tol)")] ∧
+    (flow.filter (fun r => r.fn = "JDSymEigsBase::compute_with_guess" ∧ (r.kind = "signature" ∨ r.text = "initial_space"))).map
+        (fun r => (r.kind, r.target, r.text)) =
+      [("signature", "Index", "(const Eigen::Ref<const Matrix> &, Spectra::SortRule, Spectra::JDSymEigsBase::Index, Spectra::JDSymEigsBase::Scalar)"),
+       ("call", "m_search_space.initialize_search_space", "initial_space")] ∧
+    (flow.filter (fun r => r.fn = "SearchSpace::initialize_search_space")).map (fun r => (r.depth, r.kind, r.target, r.text)) =
+      [(0, "signature", "void", "(const Eigen::Ref<const Matrix> &)"), (0, "assign", "m_basis_vectors", "initial_vectors"),
+       (0, "assign", "m_op_basis_product", "Matrix(initial_vectors.rows(), 0)")] ∧
+    (flow.filter (fun r => r.fn ∈ ["JDSymEigsBase::info", "JDSymEigsBase::num_iterations", "JDSymEigsBase::eigenvalues",
+        "JDSymEigsBase::eigenvectors"])).map (fun r => (r.fn, r.kind, r.target, r.text)) =
+      [("JDSymEigsBase::info", "signature", "CompInfo", "() const"), ("JDSymEigsBase::info", "return", "", "m_info"),
+       ("JDSymEigsBase::num_iterations", "signature", "Index", "() const"), ("JDSymEigsBase::num_iterations", "return", "", "niter_"),
+       ("JDSymEigsBase::eigenvalues", "signature", "Vector", "() const"),
+       ("JDSymEigsBase::eigenvalues", "return", "", "m_ritz_pairs.ritz_values().head((std::min)(m_number_eigenvalues, m_ritz_pairs.size()))"),
+       ("JDSymEigsBase::eigenvectors", "signature", "Matrix", "() const"),
+       ("JDSymEigsBase::eigenvectors", "return", "", "m_ritz_pairs.ritz_vectors().leftCols((std::min)(m_number_eigenvalues, m_ritz_pairs.size()))")] := by
+  refine ⟨by decide, by decide, by decide, by decide, by decide, by decide, by decide, by decide⟩
+
+set_option maxRecDepth 8000 in
+open Gen.JDMembers in
+/-- **what a second `compute` resets.**  Full clause: "`compute_with_guess` begins by resetting (or fully overwriting) every result
+    member".  That is FALSE of the code as it is: the statements before the loop reset the search space and `niter_` only (finding F21,
+    `c15_recompute_maxit0_stale`).  Proved here, by decision over the regenerated statement table `Gen.JDMembers.flow`:
+    (1) the body of `compute_with_guess` is exactly this statement sequence (nesting depth, kind, target, text);
+    (2) the statements before the `for` are `m_search_space.initialize_search_space(initial_space); niter_ = 0;`;
+    (3) `initialize_search_space` assigns, unconditionally and as a whole, EVERY data member of `SearchSpace`;
+    (4) the data members of `JDSymEigsBase` are the configuration (operator reference, `nev`, the three sizes) and the four result members
+        `niter_`, `m_ritz_pairs`, `m_search_space`, `m_info`; of these the prologue names `m_search_space` and `niter_` — `m_ritz_pairs`
+        and `m_info` are NOT reset before the loop;
+    (5) they are overwritten by the first trip round the loop: its statements up to the first `break` are the restart test,
+        `update_operator_basis_product`, `compute_eigen_pairs`; `compute_eigen_pairs` and `check_convergence` together assign, unconditionally
+        and as a whole, EVERY data member of `RitzPairs` (`m_root_converged` is then filled entry by entry for all `j < norms.size()`);
+    (6) every `break` of the loop is directly preceded by an assignment to `m_info`; the only call / assignment statement made ON
+        `m_ritz_pairs` is `m_ritz_pairs.sort(selection)` inside the loop (`compute_eigen_pairs` / `check_convergence` are the initialisers
+        of the two declarations pinned in (1)) — nothing clears it before the loop — and the only statement that READS it before
+        `compute_eigen_pairs` is the `restart` under `if (do_restart)` (pinned in (1)).
+    With the model theorem `c15_recompute` (same control flow, all kernels): for `maxit ≥ 1` and an initial space of at most `max` columns a
+    second call leaves the object a fresh one would be left in. -/
+theorem c15_compute_resets_partial :
+    (flow.filter (fun r => r.fn = "JDSymEigsBase::compute_with_guess" ∧ r.kind ≠ "signature")).map (fun r => (r.depth, r.kind, r.target, r.text)) =
+      [(0, "call", "m_search_space.initialize_search_space", "initial_space"),
+       (0, "assign", "niter_", "0"),
+       (0, "for", "", "niter_ = 0; niter_ < maxit; niter_++"),
+       (1, "decl", "do_restart", "bool := (m_search_space.size() > m_max_search_space_size)"),
+       (1, "if", "", "do_restart"),
+       (2, "call", "m_search_space.restart", "m_ritz_pairs, m_initial_search_space_size"),
+       (1, "call", "m_search_space.update_operator_basis_product", "m_matrix_operator"),
+       (1, "decl", "small_problem_info", "Eigen::ComputationInfo := m_ritz_pairs.compute_eigen_pairs(m_search_space)"),
+       (1, "if", "", "small_problem_info != Eigen::ComputationInfo::Success"),
+       (2, "assign", "m_info", "CompInfo::NumericalIssue"),
+       (2, "break", "", ""),
+       (1, "call", "m_ritz_pairs.sort", "selection"),
+       (1, "decl", "converged", "bool := m_ritz_pairs.check_convergence(tol, m_number_eigenvalues)"),
+       (1, "if", "", "converged"),
+       (2, "assign", "m_info", "CompInfo::Successful"),
+       (2, "break", "", ""),
+       (1, "else", "", ""),
+       (2, "if", "", "niter_ == maxit - 1"),
+       (3, "assign", "m_info", "CompInfo::NotConverging"),
+       (3, "break", "", ""),
+       (1, "decl", "derived", "Derived& := static_cast<Derived&>(*this)"),
+       (1, "decl", "corr_vect", "Matrix := derived.calculate_correction_vector()"),
+       (1, "call", "m_search_space.extend_basis", "corr_vect"),
+       (0, "return", "", "(m_ritz_pairs.converged_eigenvalues()).template cast<Index>().head((std::min)(m_number_eigenvalues, m_ritz_pairs.converged_eigenvalues().size())).sum()")] ∧
+    ((flow.filter (fun r => r.fn = "JDSymEigsBase::compute_with_guess" ∧ r.kind ≠ "signature")).takeWhile (fun r => r.kind ≠ "for")).map
+        (fun r => (r.kind, r.target, r.text)) =
+      [("call", "m_search_space.initialize_search_space", "initial_space"), ("assign", "niter_", "0")] ∧
+    (flow.filter (fun r => r.fn = "SearchSpace::initialize_search_space" ∧ r.kind = "assign" ∧ r.depth = 0)).map (fun r => r.target) =
+      (members.filter (fun m => m.cls = "SearchSpace")).map (fun m => m.name) ∧
+    (members.filter (fun m => m.cls = "JDSymEigsBase")).map (fun m => m.name) =
+      ["m_matrix_operator", "niter_", "m_number_eigenvalues", "m_max_search_space_size", "m_initial_search_space_size", "m_correction_size",
+       "m_ritz_pairs", "m_search_space", "m_info"] ∧
+    (["niter_", "m_ritz_pairs", "m_search_space", "m_info"].filter (fun m =>
+        ((flow.filter (fun r => r.fn = "JDSymEigsBase::compute_with_guess" ∧ r.kind ≠ "signature")).takeWhile (fun r => r.kind ≠ "for")).all
+          (fun r => r.root ≠ m))) = ["m_ritz_pairs", "m_info"] ∧
+    (flow.filter (fun r => (r.fn = "RitzPairs::compute_eigen_pairs" ∨ r.fn = "RitzPairs::check_convergence") ∧ r.kind = "assign" ∧ r.depth = 0)).map
+        (fun r => r.target) = (members.filter (fun m => m.cls = "RitzPairs")).map (fun m => m.name) ∧
+    (flow.filter (fun r => r.fn = "RitzPairs::check_convergence" ∧ (r.kind = "for" ∨ r.target = "m_root_converged[j]"))).map
+        (fun r => (r.depth, r.kind, r.target, r.text)) =
+      [(0, "for", "", "Index j = 0; j < norms.size(); j++"), (1, "assign", "m_root_converged[j]", "(norms[j] < tol)")] ∧
+    (flow.filter (fun r => r.fn = "JDSymEigsBase::compute_with_guess" ∧ r.root = "m_ritz_pairs")).map (fun r => (r.depth, r.target)) =
+      [(1, "m_ritz_pairs.sort")] ∧
+    breaksAfterInfo (flow.filter (fun r => r.fn = "JDSymEigsBase::compute_with_guess")) = true := by
+  refine ⟨by decide, by decide, by decide, by decide, by decide, by decide, by decide, by decide, by decide⟩
+
+/-! ### object reuse: every history of calls on ONE solver object -/
+section reuse
+variable {σ ν : Type} (K : Kern σ ν)
+
+/-- **c15_recompute.**  For ALL kernels and EVERY state `s` an earlier history of calls (successful, not converging, with other
+    rules / tolerances / initial spaces, …) can have left in the object: a call `compute_with_guess(guess, sel, maxit, tol)` with
+    `maxit ≥ 1`, an initial space of at most `max_search_space_size` columns (no restart in the first trip) and a first small
+    eigenproblem that `SelfAdjointEigenSolver` solves leaves EXACTLY the object, and returns exactly the value, that the same call
+    produces on a freshly constructed solver: search space, cached products, Ritz pairs, flags, `num_iterations()`, `info()`.
+    Hence `eigenvalues()` / `eigenvectors()` and every theorem of this file stated for a fresh object hold after any history. -/
+theorem c15_recompute (c : Cfg) (corr : List (Pair σ ν) → List ν) (guess : List ν) (sel : Int) (maxit : Nat) (tol : σ)
+    (s : St σ ν) (hm : 1 ≤ maxit) (hg : guess.length ≤ c.maxSize)
+    (hE : firstEigOk K (initializeSearchSpace guess construct) = true) :
+    computeWithGuess K c corr guess sel maxit tol s = computeWithGuess K c corr guess sel maxit tol construct := by
+  have h := loop_forgets K c corr sel tol maxit maxit (initializeSearchSpace guess construct) s.pairs s.conv s.info
+    (by simp only [initializeSearchSpace]; omega) (by simp [initializeSearchSpace, construct]) (by omega) hE
+  have e1 : ({ initializeSearchSpace guess s with niter := 0, sizes := [] } : St σ ν) =
+      ({ initializeSearchSpace guess (construct : St σ ν) with pairs := s.pairs, conv := s.conv, info := s.info } : St σ ν) := rfl
+  have e2 : ({ initializeSearchSpace guess (construct : St σ ν) with niter := 0, sizes := [] } : St σ ν) =
+      initializeSearchSpace guess construct := rfl
+  simp only [computeWithGuess, e1, e2, h]
+
+/-- the one exception, stated exactly: if the first small eigenproblem of the new call FAILS, the call ends at once with
+    `NumericalIssue` and everything is as on a fresh object except `m_root_converged`, which `check_convergence` never got to
+    overwrite: the flags — and with them the return value of `compute` — are those of the PREVIOUS call. -/
+theorem c15_recompute_numerical_issue (c : Cfg) (corr : List (Pair σ ν) → List ν) (guess : List ν) (sel : Int) (maxit : Nat) (tol : σ)
+    (s : St σ ν) (hm : 1 ≤ maxit) (hg : guess.length ≤ c.maxSize)
+    (hE : firstEigOk K (initializeSearchSpace guess construct) = false) :
+    (computeWithGuess K c corr guess sel maxit tol s).1 =
+      { (computeWithGuess K c corr guess sel maxit tol construct).1 with conv := s.conv } ∧
+    (computeWithGuess K c corr guess sel maxit tol s).1.info = .numericalIssue ∧
+    (computeWithGuess K c corr guess sel maxit tol s).2 = returnValue c s := by
+  have h := loop_forgets_numerical_issue K c corr sel tol maxit maxit (initializeSearchSpace guess construct) s.pairs s.conv s.info
+    (by simp only [initializeSearchSpace]; omega) (by omega) hE
+  have e1 : ({ initializeSearchSpace guess s with niter := 0, sizes := [] } : St σ ν) =
+      ({ initializeSearchSpace guess (construct : St σ ν) with pairs := s.pairs, conv := s.conv, info := s.info } : St σ ν) := rfl
+  have e2 : ({ initializeSearchSpace guess (construct : St σ ν) with niter := 0, sizes := [] } : St σ ν) =
+      initializeSearchSpace guess construct := rfl
+  simp only [computeWithGuess, e1, e2, h.1]
+  exact ⟨trivial, h.2, rfl⟩
+
+/-- **the blind side of the reset (finding F21), stated exactly.**  `compute_with_guess` resets the search space and `niter_` and
+    nothing else; with `maxit = 0` the loop body never runs, so on a used object the Ritz pairs, the flags and `info()` are those
+    of the PREVIOUS call: `info()` can be `Successful`, `compute` returns the previous count and `eigenvalues()` / `eigenvectors()`
+    hand out the previous results (selected by the previous rule, converged to the previous tolerance), while a fresh object
+    reports `NotComputed`, 0 and nothing. -/
+theorem c15_recompute_maxit0_stale (c : Cfg) (corr : List (Pair σ ν) → List ν) (guess : List ν) (sel : Int) (tol : σ) (s : St σ ν) :
+    computeWithGuess K c corr guess sel 0 tol s = ({ s with basis := guess, opBasis := [], niter := 0, sizes := [] }, returnValue c s) ∧
+    (computeWithGuess K c corr guess sel 0 tol s).1.info = s.info ∧
+    eigenvalues c (computeWithGuess K c corr guess sel 0 tol s).1 = eigenvalues c s ∧
+    eigenvectors c (computeWithGuess K c corr guess sel 0 tol s).1 = eigenvectors c s ∧
+    (computeWithGuess K c corr guess sel 0 tol (construct : St σ ν)).1.info = .notComputed ∧
+    (computeWithGuess K c corr guess sel 0 tol (construct : St σ ν)).2 = 0 ∧
+    eigenvalues c (computeWithGuess K c corr guess sel 0 tol (construct : St σ ν)).1 = [] :=
+  ⟨rfl, rfl, rfl, rfl, rfl, by simp [computeWithGuess, loop, returnValue, initializeSearchSpace, construct],
+   by simp [computeWithGuess, loop, eigenvalues, initializeSearchSpace, construct]⟩
+
+/-- **c15_successful after ANY history.**  The hypothesis `info() ≠ Successful` before the call (`c15_successful`) is needed only for
+    `maxit = 0`: for `maxit ≥ 1` and an initial space of at most `max` columns, whatever the object held before, `Successful` means the
+    test `‖residue‖ < tol` of THIS call passed for each of the first `nev` pairs of THIS call, at least `nev` pairs exist and
+    `compute` returns `nev`. -/
+theorem c15_successful_reused (c : Cfg) (corr : List (Pair σ ν) → List ν) (guess : List ν) (sel : Int) (maxit : Nat) (tol : σ)
+    (s : St σ ν) (hm : 1 ≤ maxit) (hg : guess.length ≤ c.maxSize)
+    (h : (computeWithGuess K c corr guess sel maxit tol s).1.info = .successful) :
+    let r := computeWithGuess K c corr guess sel maxit tol s
+    (∀ p ∈ r.1.pairs.take c.nev, K.lt (K.norm p.residue) tol = true) ∧
+    r.2 = c.nev ∧ c.nev ≤ r.1.pairs.length ∧ (eigenvalues c r.1).length = c.nev ∧ (eigenvectors c r.1).length = c.nev := by
+  cases hE : firstEigOk K (initializeSearchSpace guess construct) with
+  | false =>
+    have := (c15_recompute_numerical_issue K c corr guess sel maxit tol s hm hg hE).2.1
+    rw [this] at h; cases h
+  | true =>
+    have e := c15_recompute K c corr guess sel maxit tol s hm hg hE
+    rw [e] at h ⊢
+    exact c15_successful K c corr guess sel maxit tol construct (by simp [construct]) h
+
+end reuse
+
+section reuse_ring
+variable {R M : Type} [CommRing R] [AddCommGroup M] [Module R M] (K : Kern R M) (A : M →ₗ[R] M)
+
+/-- **the headline clause after ANY history**: for every linear operator, all kernels, every state `s` of a used object, `maxit ≥ 1`
+    and an initial space of at most `max` columns: `info() == Successful` ⇒ `‖A x - θ x‖ < tol` for each of the first `nev`
+    pairs `eigenvalues()` / `eigenvectors()` return, with THIS call's `tol`. -/
+theorem c15_successful_true_residuals_reused (hL : Linear K A) (hO : OrthKeepsLeft K) (c : Cfg) (corr : List (Pair R M) → List M)
+    (guess : List M) (sel : Int) (maxit : Nat) (tol : R) (s : St R M) (hm : 1 ≤ maxit) (hg : guess.length ≤ c.maxSize)
+    (h : (computeWithGuess K c corr guess sel maxit tol s).1.info = .successful) :
+    ∀ p ∈ (computeWithGuess K c corr guess sel maxit tol s).1.pairs.take c.nev,
+      K.lt (K.norm (A p.vector - p.value • p.vector)) tol = true := by
+  cases hE : firstEigOk K (initializeSearchSpace guess construct) with
+  | false =>
+    have := (c15_recompute_numerical_issue K c corr guess sel maxit tol s hm hg hE).2.1
+    rw [this] at h; cases h
+  | true =>
+    have e := c15_recompute K c corr guess sel maxit tol s hm hg hE
+    rw [e] at h ⊢
+    exact c15_successful_true_residuals K A hL hO c corr guess sel maxit tol h
+
+end reuse_ring
+
 /-! ### examples: hypotheses are satisfiable; witnesses for the clauses that fail -/
 
 /-- 1-dimensional kernels over the commutative ring ℤ: `M = ℤ`, operator `x ↦ a x`, squared norm; the eigen-solver returns
@@ -579,5 +809,21 @@ example (a : ℤ) : OrthKeepsLeft (K4 a) ∧ OrthBlockSpec (fun x y : ℤ => x *
       match t, h2 with
       | [], _ => simp [ON]
       | [x], _ => simp [ON]
+
+/-- hypotheses of `c15_recompute` are satisfiable, and the history matters for `maxit = 0` only: the used object `sUsed` (the state
+    after `compute_with_guess([1], rule 7, maxit 5, tol 1)` with the operator `3·`: `Successful`, eigenvalue 3) is called again
+    with tolerance 0, under which nothing converges.  With `maxit = 1` it reports `NotConverging` and returns 0, as a fresh object
+    does; with `maxit = 0` it still reports `Successful`, returns 1 and hands out the pair of the previous call (F21). -/
+def sUsed : St ℤ ℤ := (computeWithGuess (K1 3) cfg1 (fun _ => [1]) [1] 7 5 1 construct).1
+
+example :
+    firstEigOk (K1 3) (initializeSearchSpace [1] construct) = true ∧ sUsed.info = .successful ∧
+    (computeWithGuess (K1 3) cfg1 (fun _ => [1]) [1] 7 1 0 sUsed).1.info = .notConverging ∧
+    (computeWithGuess (K1 3) cfg1 (fun _ => [1]) [1] 7 1 0 sUsed).2 = 0 ∧
+    (computeWithGuess (K1 3) cfg1 (fun _ => [1]) [1] 7 0 0 sUsed).1.info = .successful ∧
+    (computeWithGuess (K1 3) cfg1 (fun _ => [1]) [1] 7 0 0 sUsed).2 = 1 ∧
+    eigenvalues cfg1 (computeWithGuess (K1 3) cfg1 (fun _ => [1]) [1] 7 0 0 sUsed).1 = [3] ∧
+    (computeWithGuess (K1 3) cfg1 (fun _ => [1]) [1] 7 0 0 construct).1.info = .notComputed := by
+  decide
 
 end C15
